@@ -388,10 +388,12 @@ def struct_cases(draw, tier):
     c['reset'] = draw(st.sampled_from([None, None, 'first', 'again']))
     # the caller replays a full logged row: the update also lists an entry under the name of the output object
     c['echo_output'] = draw(st.integers(0, 3)) == 0
+    # online kinds: the combined class of the README, with an evaluate() on the whole data between two updates
+    c['interleave_evaluate'] = draw(st.integers(0, 3)) == 0
     return c
 
 
-def run_struct(kind, f, vs, data, paths, structured, sem=None, objio=None, outfield=None, reset=None, echo=False):
+def run_struct(kind, f, vs, data, paths, structured, sem=None, objio=None, outfield=None, reset=None, echo=False, inter=False):
     from ..structs import Msg, PATHS
     dense = kind.startswith('ct')
     base = {'dt_off': 'dt_off', 'dt_on': 'dt_on', 'dt_on_past': 'dt_on', 'ct_off': 'ct_off', 'ct_on': 'ct_on'}[kind]
@@ -407,8 +409,8 @@ def run_struct(kind, f, vs, data, paths, structured, sem=None, objio=None, outfi
         # the requirement writes its verdict into a field of an object-valued output variable: res.value = ...
         text = 'res.%s = %s' % (outfield, text.split('=', 1)[1].strip())
     objs = sorted(set(paths[v][0] for v in vs))
-    if sem:
-        base = base[:2]           # interface-aware semantics: the combined classes
+    if sem or inter:
+        base = base[:2]           # interface-aware semantics / offline and online use of one object: the combined classes
     try:
         if structured:
             spec = build(base, text, [], parse=False, semantics=sem)
@@ -448,7 +450,14 @@ def run_struct(kind, f, vs, data, paths, structured, sem=None, objio=None, outfi
             elif reset == 'again':
                 [spec.update(i, [(k, col[i]) for k, col in cols.items()] + extra) for i in range(n)]
                 spec.reset()
-            return ('ok', [spec.update(i, [(k, col[i]) for k, col in cols.items()] + extra) for i in range(n)])
+            outs = []
+            for i in range(n):
+                if inter and i == n // 2:
+                    ds = {'time': [float(j) for j in range(n)]}
+                    ds.update({k: list(col) for k, col in cols.items()})
+                    spec.evaluate(ds)
+                outs.append(spec.update(i, [(k, col[i]) for k, col in cols.items()] + extra))
+            return ('ok', outs)
         sig = to_time({v: data[v] for v in vs}, Q)
         if structured:
             stamps = [t for t, _ in sig[vs[0]]]
@@ -472,6 +481,8 @@ def run_struct(kind, f, vs, data, paths, structured, sem=None, objio=None, outfi
                 spec.update(*copy(rest))
             spec.reset()
         out = list(spec.update(*copy(first)))
+        if inter:
+            spec.evaluate(*[[n_, [list(p) for p in s]] for n_, s in args])
         if any(s for _n, s in rest):
             out += list(spec.update(*copy(rest)))
         return ('ok', out)
@@ -496,13 +507,16 @@ def check_struct(case):
     rs = case.get('reset') if kind in ('dt_on', 'dt_on_past', 'ct_on') else None
     if rs:
         labels.append('reset:' + rs)
-    plain = run_struct(kind, f, vs, data, case['paths'], False, reset=rs)
+    inter = bool(case.get('interleave_evaluate')) and kind in ('dt_on', 'ct_on')
+    if inter:
+        labels.append('evaluate-between-updates')
+    plain = run_struct(kind, f, vs, data, case['paths'], False, reset=rs, inter=inter)
     if plain[0] != 'ok':
         return DISCARD('plain-raises(other lanes):' + plain[1], labels)
     echo = bool(case.get('echo_output')) and kind in ('dt_on', 'dt_on_past', 'ct_on') and bool(case.get('outfield'))
     if echo:
         labels.append('update-lists-the-output-object')
-    st_ = run_struct(kind, f, vs, data, case['paths'], True, outfield=case.get('outfield'), reset=rs, echo=echo)
+    st_ = run_struct(kind, f, vs, data, case['paths'], True, outfield=case.get('outfield'), reset=rs, echo=echo, inter=inter)
     desc = 'monitor %s\nspec over plain variables: %s\nfield paths: %s%s\ndata: %s' % (kind, show(f), {v: '.'.join(case['paths'][v]) for v in vs},
                                                                                        ('; the verdict is written to res.%s' % case['outfield'] if case.get('outfield') else '') + ('; reset() before the first update' if rs == 'first' else '; the input once, reset(), the input again' if rs == 'again' else ''), {v: data[v] for v in vs})
     if st_[0] != 'ok':
